@@ -222,9 +222,9 @@ def _is_ligature_mark(glyph):
 
 def _bounds(component, glyph_set):
     """Return the (xmin, ymin) of the bounds of `component`."""
-    if hasattr(component, "bounds"):  # e.g. defcon
-        return component.bounds[:2]
-    elif hasattr(component, "draw"):  # e.g. ufoLib2
+    # always resolve the base glyph in `glyph_set`: defcon's own Component.bounds looks
+    # it up in the source font's layer, which earlier filters have not touched
+    if hasattr(component, "draw"):
         pen = fontTools.pens.boundsPen.BoundsPen(glyphSet=glyph_set)
         component.draw(pen)
         return pen.bounds[:2]
